@@ -35,6 +35,7 @@ def run(ctx):
     State, emu = lw.State, lw.emulator
     first = True
     previous: list = []
+    pool: list = []
     while not ctx.out_of_time():
         loss_p = float(rng.choice([0.0, 0.25, 0.5]))
         b = Builder(rng, lw, loss_p=loss_p, max_herald_photons=1)
@@ -111,7 +112,21 @@ def run(ctx):
             if total_loss: ctx.bucket("total_loss_element")
             if bunched: ctx.bucket("bunched_input")
             if heralded: ctx.bucket("heralded")
+            for old_s, old_d, cfg0 in pool[:3]:
+                try:
+                    src0 = old_s.source
+                    if (src0.brightness, src0.purity, src0.indistinguishability) == cfg0:
+                        ctx.count("earlier_objects_rechecked")
+                        now = {tuple(st): p for st, p in old_s.probability_distribution.items()}
+                        if now != old_d:
+                            ctx.violation("an earlier Sampler reports a different distribution after other samplers "
+                                          "were created / used", case=case, mechanism="earlier_object_changed",
+                                          monitor="earlier-object re-read")
+                except Exception as e:  # noqa: BLE001
+                    ctx.count("reread_raised:" + type(e).__name__)
             if len(dists) == 2:
+                pool.append((s, dict(dists["slos"]), (1, 1, 1)))
+                del pool[:-5]
                 ctx.count("cross_backend_comparisons")
                 kf = boson.n_fock(u.shape[0], nph + hph)
                 allow = 2e-9 * kf + 1e-9
